@@ -272,3 +272,8 @@ Lemma cs_vparts_relock (r : Z) (s : cstate) : cs_vparts (relock r s) = (if cs_vr
 Proof. unfold relock, relock_unfixed. cbn [cs_vround set_locked]. destruct (_ <? _); reflexivity. Qed.
 #[export] Hint Rewrite cs_height_relock cs_round_relock cs_step_relock cs_triggered_relock cs_proposal_relock cs_pblock_relock cs_pparts_relock cs_lblock_relock cs_lparts_relock cs_commit_round_relock cs_votes_relock cs_last_commit_relock cs_scheduled_relock cs_halted_relock cs_lround_relock cs_vround_relock cs_vblock_relock cs_vparts_relock : cs.
 Arguments relock : simpl never.
+Lemma relock_eq (r : Z) (s : cstate) :
+  relock r s = (if cs_vround s <? r then set_valid r (cs_lblock s) (cs_lparts s) (relock_unfixed r s) else relock_unfixed r s).
+Proof. reflexivity. Qed.
+(* kept folded: the unifier must not unfold it when autorewrite tries the projection lemmas *)
+#[global] Opaque relock.
